@@ -9,6 +9,13 @@ only = sys.argv[2] if len(sys.argv) > 2 else ''
 budget = float(sys.argv[3]) if len(sys.argv) > 3 else 60
 mode = sys.argv[4] if len(sys.argv) > 4 else None
 import pyvc.path as P
+if os.environ.get('SLOW'):
+    _oc = P.Explorer.check
+    def _ck(self, c, label, *a, **k):
+        t = time.time(); r = _oc(self, c, label, *a, **k)
+        if time.time() - t > float(os.environ['SLOW']): print('SLOW', '%.1f' % (time.time() - t), label, flush=True)
+        return r
+    P.Explorer.check = _ck
 for h in REGISTRY:
     if only and only not in h.name: continue
     if h.fn.__module__ != sys.argv[1]: continue
